@@ -180,8 +180,9 @@ theorem C12_engine_retry (c : Ctx) (s : St) (obs : List Obs) (d : DagRef) (n : N
     (below : List Frame) (k : Nat) (kw : Kwargs) (inv : Nat) (e : Exc)
     (h : decide (c.P.cfg n) k (.raise e) = .retry) :
     nodeAfterBody c s obs d n force below k kw inv (.raise e) =
-      cbThen c s (obs ++ [.ncomplete n (some e)]) (fun j => .node d n force (.cbRetry j k kw inv) :: below)
-        (c.P.cbYield .ncomplete n) (fun s obs => nodeSleep c s obs d n force below k kw inv) := by
+      cbCall c .ncomplete n s (obs ++ [.ncomplete n (some e)]) (fun j => .node d n force (.cbRetry j k kw inv) :: below)
+        (fun s obs => nodeSleep c s obs d n force below k kw inv)
+        (fun e' s obs => nodeCbRaiseInTry c s obs d n below e') := by
   obtain ⟨e', he, hr, hk⟩ := (decide_retry_iff _ _ _).mp h
   cases he
   have hk' : (k == (c.P.cfg n).attemptsEff) = false := by simpa using hk
